@@ -1,7 +1,863 @@
-//! C39 — not implemented yet.
-use vmon::report::Args;
+//! C39 — the MemWAL index follows its state machine under concurrency.
+//!
+//! Generator: a sequential setup builds 1-2 regions with a ladder of generations in random
+//! states (open / sealed / flushed / merged); then 2-3 actors, each with its own handle and a
+//! script of 1-3 operations planned against its own view {advance generation, append WAL entry,
+//! seal, flush, mark merged, owner change, trim, merge_insert with mark_mem_wal_as_merged, plain
+//! append}, run under the gate scheduler (every actor order, uniform, PCT, round robin).
+//!
+//! Oracle (offline, over what was committed): every version's MemWAL index details are decoded
+//! (the raw list, so duplicates are visible) and the version-ordered sequence must satisfy:
+//!   S1 each (region, generation) appears at most once in a version;
+//!   S2 a generation that first appears is max-ever(region)+1 (0 for a new region);
+//!   S3 only the highest generation of a region may be Open;
+//!   S4 the state of a generation never moves backwards (Open<Sealed<Flushed<Merged);
+//!   S5 a generation that disappeared was Merged (trim) and never reappears;
+//! and the history rule H: two committed transactions that were concurrent (read version of each
+//! < commit version of the other; read version = version of the handle the op was called on)
+//! never both changed the same (region, generation), nor the owner within the same region.
 
-pub fn run(_args: &Args) -> i32 {
-    eprintln!("HARNESS-ERROR C39 not implemented");
-    2
+use crate::engine::*;
+use lance::dataset::{MergeInsertBuilder, WhenMatched, WhenNotMatched, WriteMode, WriteParams};
+use lance::index::mem_wal::{
+    advance_mem_wal_generation, append_mem_wal_entry, mark_mem_wal_as_flushed, mark_mem_wal_as_merged,
+    mark_mem_wal_as_sealed, trim_mem_wal_index, update_mem_wal_owner,
+};
+use lance::Dataset;
+use lance_index::mem_wal::{MemWalId, MemWalIndexDetails, State, MEM_WAL_INDEX_NAME};
+use lance_index::DatasetIndexExt;
+use lance_table::format::pb;
+use serde_json::{json, Value};
+use std::collections::{BTreeMap, BTreeSet};
+use std::sync::atomic::{AtomicU64, Ordering};
+use std::sync::Arc;
+use vmon::prng::{fnv, Rng};
+use vmon::report::{Args, Report};
+use vmon::store::{Sched, World};
+use vmon::table::{Actor, Row};
+
+#[derive(Clone, Debug)]
+enum MOp {
+    Advance { region: String, expected: Option<String>, new_owner: String, tag: u64 },
+    Entry { region: String, gen: u64, entry: u64, owner: String },
+    Seal { region: String, gen: u64, owner: String },
+    Flush { region: String, gen: u64, owner: String },
+    Merged { region: String, gen: u64, owner: String },
+    Owner { region: String, gen: u64, new_owner: String },
+    Trim,
+    MergeInsert { region: String, gen: u64, owner: String, ids: Vec<i64>, salt: u64 },
+    TableAppend { ids: Vec<i64> },
+    Refresh,
+}
+
+impl MOp {
+    fn kind(&self) -> &'static str {
+        match self {
+            MOp::Advance { .. } => "advance",
+            MOp::Entry { .. } => "append_entry",
+            MOp::Seal { .. } => "seal",
+            MOp::Flush { .. } => "flush",
+            MOp::Merged { .. } => "mark_merged",
+            MOp::Owner { .. } => "owner_change",
+            MOp::Trim => "trim",
+            MOp::MergeInsert { .. } => "merge_insert_mark_merged",
+            MOp::TableAppend { .. } => "table_append",
+            MOp::Refresh => "checkout_latest",
+        }
+    }
+    fn describe(&self) -> Value {
+        match self {
+            MOp::Advance { region, expected, new_owner, .. } => json!({"op":"advance","region":region,"expected_owner":expected,"new_owner":new_owner}),
+            MOp::Entry { region, gen, entry, owner } => json!({"op":"append_entry","region":region,"gen":gen,"entry":entry,"owner":owner}),
+            MOp::Seal { region, gen, owner } => json!({"op":"seal","region":region,"gen":gen,"owner":owner}),
+            MOp::Flush { region, gen, owner } => json!({"op":"flush","region":region,"gen":gen,"owner":owner}),
+            MOp::Merged { region, gen, owner } => json!({"op":"mark_merged","region":region,"gen":gen,"owner":owner}),
+            MOp::Owner { region, gen, new_owner } => json!({"op":"owner_change","region":region,"gen":gen,"new_owner":new_owner}),
+            MOp::Trim => json!({"op":"trim"}),
+            MOp::MergeInsert { region, gen, owner, ids, .. } => json!({"op":"merge_insert_mark_merged","region":region,"gen":gen,"owner":owner,"ids":ids}),
+            MOp::TableAppend { ids } => json!({"op":"table_append","ids":ids}),
+            MOp::Refresh => json!({"op":"checkout_latest"}),
+        }
+    }
+}
+
+fn reader_of(rows: &[Row]) -> impl arrow_array::RecordBatchReader + Send + 'static {
+    let b = rows_to_batch(rows, &BASE_COLS);
+    let schema = b.schema();
+    arrow_array::RecordBatchIterator::new(vec![Ok(b)].into_iter(), schema)
+}
+
+async fn exec(ds: &mut Dataset, actor: &Actor, op: &MOp) -> lance::Result<()> {
+    match op {
+        MOp::Advance { region, expected, new_owner, tag } => {
+            advance_mem_wal_generation(
+                ds,
+                region,
+                &format!("mem://{region}/{tag}"),
+                &format!("wal://{region}/{tag}"),
+                expected.as_deref(),
+                new_owner,
+            )
+            .await
+        }
+        MOp::Entry { region, gen, entry, owner } => append_mem_wal_entry(ds, region, *gen, *entry, owner).await.map(|_| ()),
+        MOp::Seal { region, gen, owner } => mark_mem_wal_as_sealed(ds, region, *gen, owner).await.map(|_| ()),
+        MOp::Flush { region, gen, owner } => mark_mem_wal_as_flushed(ds, region, *gen, owner).await.map(|_| ()),
+        MOp::Merged { region, gen, owner } => mark_mem_wal_as_merged(ds, region, *gen, owner).await.map(|_| ()),
+        MOp::Owner { region, gen, new_owner } => update_mem_wal_owner(ds, region, *gen, new_owner, None).await.map(|_| ()),
+        MOp::Trim => trim_mem_wal_index(ds).await,
+        MOp::MergeInsert { region, gen, owner, ids, salt } => {
+            let rows: Vec<Row> = ids.iter().map(|i| gen_row(*i, *salt)).collect();
+            let mut b = MergeInsertBuilder::try_new(Arc::new(ds.clone()), vec!["id".to_string()])?;
+            b.when_matched(WhenMatched::UpdateAll).when_not_matched(WhenNotMatched::InsertAll);
+            b.retry_timeout(RETRY_TIMEOUT);
+            b.mark_mem_wal_as_merged(MemWalId::new(region, *gen), owner).await?;
+            let (out, _) = b.try_build()?.execute_reader(reader_of(&rows)).await?;
+            *ds = out.as_ref().clone();
+            Ok(())
+        }
+        MOp::TableAppend { ids } => {
+            let rows: Vec<Row> = ids.iter().map(|i| gen_row(*i, 3)).collect();
+            let params = WriteParams { auto_cleanup: None, ..actor.write_params(WriteMode::Append) };
+            ds.append(reader_of(&rows), Some(params)).await
+        }
+        MOp::Refresh => ds.checkout_latest().await,
+    }
+}
+
+// ---------------------------------------------------------------------------------------------
+// local view used to plan scripts
+// ---------------------------------------------------------------------------------------------
+
+#[derive(Clone, Debug, PartialEq)]
+struct GenView {
+    state: u8,
+    owner: String,
+    high: u64,
+}
+
+type View = BTreeMap<String, BTreeMap<u64, GenView>>;
+
+fn view_apply(view: &mut View, op: &MOp) {
+    match op {
+        MOp::Advance { region, new_owner, .. } => {
+            let gens = view.entry(region.clone()).or_default();
+            let next = gens.keys().last().map(|g| g + 1).unwrap_or(0);
+            if let Some((_, last)) = gens.iter_mut().last() {
+                if last.state == 0 {
+                    last.state = 1;
+                }
+            }
+            gens.insert(next, GenView { state: 0, owner: new_owner.clone(), high: 0 });
+        }
+        MOp::Entry { region, gen, entry, .. } => {
+            if let Some(g) = view.get_mut(region).and_then(|m| m.get_mut(gen)) {
+                g.high = *entry;
+            }
+        }
+        MOp::Seal { region, gen, .. } => set_state(view, region, *gen, 1),
+        MOp::Flush { region, gen, .. } => set_state(view, region, *gen, 2),
+        MOp::Merged { region, gen, .. } | MOp::MergeInsert { region, gen, .. } => set_state(view, region, *gen, 3),
+        MOp::Owner { region, gen, new_owner } => {
+            if let Some(g) = view.get_mut(region).and_then(|m| m.get_mut(gen)) {
+                g.owner = new_owner.clone();
+            }
+        }
+        MOp::Trim => {
+            for gens in view.values_mut() {
+                gens.retain(|_, g| g.state != 3);
+            }
+        }
+        _ => {}
+    }
+}
+
+fn set_state(view: &mut View, region: &str, gen: u64, s: u8) {
+    if let Some(g) = view.get_mut(region).and_then(|m| m.get_mut(&gen)) {
+        g.state = s;
+    }
+}
+
+static TAG: AtomicU64 = AtomicU64::new(1);
+
+/// One op that is (mostly) valid in `view`.
+fn plan_op(rng: &mut Rng, view: &View, actor: usize, regions: &[String], fresh: &mut i64) -> MOp {
+    let region = rng.pick(regions).clone();
+    let gens = view.get(&region).cloned().unwrap_or_default();
+    let latest = gens.iter().last().map(|(g, v)| (*g, v.clone()));
+    let me = format!("own{actor}");
+    let sloppy = rng.chance(1, 10); // deliberately stale / wrong parameters
+    let pick_in_state = |rng: &mut Rng, s: u8| -> Option<(u64, GenView)> {
+        let c: Vec<(u64, GenView)> = gens.iter().filter(|(_, v)| v.state == s).map(|(g, v)| (*g, v.clone())).collect();
+        if c.is_empty() { None } else { Some(c[rng.usize_below(c.len())].clone()) }
+    };
+    for _ in 0..8 {
+        match rng.below(12) {
+            0 | 1 => {
+                let expected = latest.as_ref().map(|(_, v)| v.owner.clone());
+                let new_owner = if rng.bool() { expected.clone().unwrap_or(me.clone()) } else { me.clone() };
+                return MOp::Advance { region, expected, new_owner, tag: TAG.fetch_add(1, Ordering::Relaxed) };
+            }
+            2 | 3 => {
+                if let Some((g, v)) = &latest {
+                    if v.state == 0 || sloppy {
+                        return MOp::Entry { region, gen: *g, entry: v.high + 1 + rng.below(3), owner: v.owner.clone() };
+                    }
+                }
+            }
+            4 => {
+                let target = if sloppy { pick_in_state(rng, 1).or(latest.clone()) } else { latest.clone().filter(|(_, v)| v.state == 0) };
+                if let Some((g, v)) = target {
+                    return MOp::Seal { region, gen: g, owner: v.owner };
+                }
+            }
+            5 | 6 => {
+                if let Some((g, v)) = pick_in_state(rng, if sloppy { 0 } else { 1 }) {
+                    return MOp::Flush { region, gen: g, owner: v.owner };
+                }
+            }
+            7 => {
+                if let Some((g, v)) = pick_in_state(rng, if sloppy { 1 } else { 2 }) {
+                    return MOp::Merged { region, gen: g, owner: v.owner };
+                }
+            }
+            8 => {
+                if let Some((g, v)) = pick_in_state(rng, 2) {
+                    *fresh += 2;
+                    let ids = vec![rng.below(4) as i64, ((actor as i64) << 40) + *fresh];
+                    return MOp::MergeInsert { region, gen: g, owner: v.owner, ids, salt: rng.next_u64() | 1 };
+                }
+            }
+            9 => {
+                if !gens.is_empty() {
+                    let keys: Vec<u64> = gens.keys().copied().collect();
+                    let g = if rng.chance(2, 3) { *keys.last().unwrap() } else { keys[rng.usize_below(keys.len())] };
+                    if gens[&g].owner != me {
+                        return MOp::Owner { region, gen: g, new_owner: me };
+                    }
+                }
+            }
+            10 => return MOp::Trim,
+            _ => {
+                if rng.chance(1, 4) {
+                    *fresh += 1;
+                    return MOp::TableAppend { ids: vec![((actor as i64) << 40) + *fresh] };
+                }
+            }
+        }
+    }
+    MOp::Trim
+}
+
+// ---------------------------------------------------------------------------------------------
+// observation of committed versions
+// ---------------------------------------------------------------------------------------------
+
+#[derive(Clone, Debug, PartialEq)]
+struct GenObs {
+    state: u8,
+    owner: String,
+    entries: String,
+    mem_loc: String,
+    wal_loc: String,
+}
+
+/// (region, generation) -> every entry with that id in the details list (len > 1 = duplicate)
+type Snap = BTreeMap<(String, u64), Vec<GenObs>>;
+
+fn state_rank(s: &State) -> u8 {
+    match s {
+        State::Open => 0,
+        State::Sealed => 1,
+        State::Flushed => 2,
+        State::Merged => 3,
+    }
+}
+const STATE_NAMES: [&str; 4] = ["open", "sealed", "flushed", "merged"];
+
+async fn observe(reader: &Actor, uri: &str, v: u64) -> Result<(Snap, String), String> {
+    let ds = reader.open_version(uri, v).await.map_err(|e| format!("open v{v}: {e}"))?;
+    let txn = ds
+        .read_transaction()
+        .await
+        .ok()
+        .flatten()
+        .map(|t| t.operation.name().to_string())
+        .unwrap_or_else(|| "?".into());
+    let indices = ds.load_indices().await.map_err(|e| format!("load_indices v{v}: {e}"))?;
+    let mut snap = Snap::new();
+    let metas: Vec<_> = indices.iter().filter(|i| i.name == MEM_WAL_INDEX_NAME).collect();
+    if metas.len() > 1 {
+        return Err(format!("v{v}: {} MemWAL index entries", metas.len()));
+    }
+    if let Some(m) = metas.first() {
+        let any = m.index_details.as_ref().ok_or("MemWAL index without details")?;
+        let msg = any.to_msg::<pb::MemWalIndexDetails>().map_err(|e| format!("decode details: {e}"))?;
+        let details = MemWalIndexDetails::try_from(msg).map_err(|e| format!("decode details: {e}"))?;
+        for w in details.mem_wal_list {
+            snap.entry((w.id.region.clone(), w.id.generation)).or_default().push(GenObs {
+                state: state_rank(&w.state),
+                owner: w.owner_id.clone(),
+                entries: format!("{:?}", w.wal_entries()),
+                mem_loc: w.mem_table_location.clone(),
+                wal_loc: w.wal_location.clone(),
+            });
+        }
+    }
+    Ok((snap, txn))
+}
+
+#[derive(Clone, Debug)]
+struct OpRec {
+    actor: usize,
+    op: MOp,
+    read_version: u64,
+    result: Result<u64, (String, String)>,
+}
+
+impl OpRec {
+    fn describe(&self) -> Value {
+        json!({"actor": self.actor, "op": self.op.describe(), "read_version": self.read_version,
+            "result": match &self.result { Ok(v) => json!({"ok": v}), Err((c, m)) => json!({"err": c, "msg": m.chars().take(220).collect::<String>()}) }})
+    }
+}
+
+struct Checked {
+    findings: Vec<Finding>,
+    versions: u64,
+    generations_checked: u64,
+    transitions: BTreeMap<String, u64>,
+    concurrent_pairs: u64,
+}
+
+/// The offline checker. `snaps[v]` for v in 1..=latest; `ops` = client-boundary history.
+fn check_history(snaps: &BTreeMap<u64, Snap>, ops: &[OpRec]) -> Checked {
+    let mut c = Checked { findings: vec![], versions: 0, generations_checked: 0, transitions: BTreeMap::new(), concurrent_pairs: 0 };
+    let mut max_ever: BTreeMap<String, u64> = BTreeMap::new();
+    let mut gone: BTreeSet<(String, u64)> = BTreeSet::new();
+    let mut prev: Snap = Snap::new();
+    let committer: BTreeMap<u64, &OpRec> = ops.iter().filter_map(|o| o.result.as_ref().ok().map(|v| (*v, o))).collect();
+    let by = |v: u64| committer.get(&v).map(|o| o.op.kind()).unwrap_or("setup");
+    for (v, snap) in snaps {
+        c.versions += 1;
+        let mut latest: BTreeMap<&str, u64> = BTreeMap::new();
+        for ((r, g), _) in snap.iter() {
+            let e = latest.entry(r.as_str()).or_insert(*g);
+            *e = (*e).max(*g);
+        }
+        for ((r, g), list) in snap.iter() {
+            c.generations_checked += 1;
+            if list.len() > 1 {
+                c.findings.push(Finding {
+                    signature: format!("generation-listed-twice:{}", by(*v)),
+                    what: format!("v{v}: region {r} generation {g} appears {} times in the MemWAL index", list.len()),
+                    detail: json!({"version": v, "region": r, "generation": g, "states": list.iter().map(|x| STATE_NAMES[x.state as usize]).collect::<Vec<_>>()}),
+                });
+            }
+            let cur = &list[list.len() - 1];
+            let key = (r.clone(), *g);
+            match prev.get(&key) {
+                None => {
+                    if gone.contains(&key) {
+                        c.findings.push(Finding {
+                            signature: format!("trimmed-generation-reappears:{}", by(*v)),
+                            what: format!("v{v}: region {r} generation {g} was removed earlier and is back ({})", STATE_NAMES[cur.state as usize]),
+                            detail: json!({"version": v, "region": r, "generation": g}),
+                        });
+                    } else {
+                        let expect = max_ever.get(r).map(|m| m + 1).unwrap_or(0);
+                        if *g != expect {
+                            c.findings.push(Finding {
+                                signature: format!("generation-not-consecutive:{}", by(*v)),
+                                what: format!("v{v}: region {r} gets generation {g}, expected {expect}"),
+                                detail: json!({"version": v, "region": r, "generation": g, "expected": expect}),
+                            });
+                        }
+                    }
+                }
+                Some(p) => {
+                    let p = &p[p.len() - 1];
+                    if p.state != cur.state {
+                        *c.transitions.entry(format!("{}->{}", STATE_NAMES[p.state as usize], STATE_NAMES[cur.state as usize])).or_insert(0) += 1;
+                    }
+                    if cur.state < p.state {
+                        c.findings.push(Finding {
+                            signature: format!("state-moves-backwards:{}->{}:{}", STATE_NAMES[p.state as usize], STATE_NAMES[cur.state as usize], by(*v)),
+                            what: format!("v{v}: region {r} generation {g} went from {} to {}", STATE_NAMES[p.state as usize], STATE_NAMES[cur.state as usize]),
+                            detail: json!({"version": v, "region": r, "generation": g}),
+                        });
+                    }
+                }
+            }
+            let m = max_ever.entry(r.clone()).or_insert(*g);
+            *m = (*m).max(*g);
+            if cur.state == 0 && latest.get(r.as_str()).copied() != Some(*g) {
+                c.findings.push(Finding {
+                    signature: format!("older-generation-open:{}", by(*v)),
+                    what: format!("v{v}: region {r} generation {g} is open but generation {} exists", latest[r.as_str()]),
+                    detail: json!({"version": v, "region": r, "generation": g}),
+                });
+            }
+        }
+        for (key, p) in prev.iter() {
+            if !snap.contains_key(key) {
+                let p = &p[p.len() - 1];
+                gone.insert(key.clone());
+                if p.state != 3 {
+                    c.findings.push(Finding {
+                        signature: format!("unmerged-generation-removed:{}:{}", STATE_NAMES[p.state as usize], by(*v)),
+                        what: format!("v{v}: region {} generation {} disappeared while {}", key.0, key.1, STATE_NAMES[p.state as usize]),
+                        detail: json!({"version": v, "region": key.0, "generation": key.1}),
+                    });
+                }
+            }
+        }
+        prev = snap.clone();
+    }
+    // history rule
+    let changed = |v: u64| -> (BTreeSet<(String, u64)>, BTreeSet<String>) {
+        let (Some(a), Some(b)) = (snaps.get(&(v - 1)), snaps.get(&v)) else { return Default::default() };
+        let mut gens = BTreeSet::new();
+        let mut owners = BTreeSet::new();
+        let latest_owner = |s: &Snap, r: &str| s.iter().filter(|(k, _)| k.0 == r).last().map(|(_, l)| l[l.len() - 1].owner.clone());
+        for k in a.keys().chain(b.keys()) {
+            let (x, y) = (a.get(k), b.get(k));
+            if x != y {
+                gens.insert(k.clone());
+                let ox = x.map(|l| l[l.len() - 1].owner.clone());
+                let oy = y.map(|l| l[l.len() - 1].owner.clone());
+                if x.is_some() && y.is_some() && ox != oy {
+                    owners.insert(k.0.clone());
+                }
+            }
+        }
+        let regions: BTreeSet<&String> = a.keys().chain(b.keys()).map(|k| &k.0).collect();
+        for r in regions {
+            let (oa, ob) = (latest_owner(a, r), latest_owner(b, r));
+            if oa.is_some() && ob.is_some() && oa != ob {
+                owners.insert(r.clone());
+            }
+        }
+        (gens, owners)
+    };
+    let committed: Vec<&OpRec> = ops.iter().filter(|o| o.result.is_ok()).collect();
+    for i in 0..committed.len() {
+        for j in i + 1..committed.len() {
+            let (a, b) = (committed[i], committed[j]);
+            let (ca, cb) = (*a.result.as_ref().unwrap(), *b.result.as_ref().unwrap());
+            if ca == cb || a.actor == b.actor {
+                continue;
+            }
+            if !(a.read_version < cb && b.read_version < ca) {
+                continue;
+            }
+            c.concurrent_pairs += 1;
+            let (ga, oa) = changed(ca);
+            let (gb, ob) = changed(cb);
+            let mut kinds = [a.op.kind(), b.op.kind()];
+            kinds.sort();
+            let both: Vec<_> = ga.intersection(&gb).cloned().collect();
+            if !both.is_empty() {
+                c.findings.push(Finding {
+                    signature: format!("concurrent-txns-both-changed-same-generation:{}+{}", kinds[0], kinds[1]),
+                    what: format!("v{ca} ({}, read v{}) and v{cb} ({}, read v{}) were concurrent and both changed {:?}", a.op.kind(), a.read_version, b.op.kind(), b.read_version, both),
+                    detail: json!({"a": a.describe(), "b": b.describe(), "generations": both}),
+                });
+            }
+            let both_o: Vec<_> = oa.intersection(&ob).cloned().collect();
+            if !both_o.is_empty() {
+                c.findings.push(Finding {
+                    signature: format!("concurrent-txns-both-changed-ownership-of-region:{}+{}", kinds[0], kinds[1]),
+                    what: format!("v{ca} ({}) and v{cb} ({}) were concurrent and both changed the ownership in region(s) {:?}", a.op.kind(), b.op.kind(), both_o),
+                    detail: json!({"a": a.describe(), "b": b.describe(), "regions": both_o}),
+                });
+            }
+        }
+    }
+    c
+}
+
+// ---------------------------------------------------------------------------------------------
+// one history
+// ---------------------------------------------------------------------------------------------
+
+struct EndGuard {
+    sched: Arc<Sched>,
+    actor: usize,
+}
+impl Drop for EndGuard {
+    fn drop(&mut self) {
+        self.sched.end(self.actor);
+    }
+}
+
+static URI: AtomicU64 = AtomicU64::new(0);
+
+struct Case {
+    setup: Vec<MOp>,
+    scripts: Vec<Vec<MOp>>,
+    strategy: StratSpec,
+}
+
+fn gen_case(seed: u64, idx: u64) -> Case {
+    let mut rng = Rng::for_case(seed, idx);
+    let regions: Vec<String> = if rng.chance(2, 3) { vec!["A".into()] } else { vec!["A".into(), "B".into()] };
+    // setup: ladder of generations per region
+    let mut view = View::new();
+    let mut setup = vec![];
+    for r in &regions {
+        let owner = format!("o{r}");
+        let gens = rng.urange(1, 4);
+        for g in 0..gens as u64 {
+            let op = MOp::Advance { region: r.clone(), expected: if g == 0 { None } else { Some(owner.clone()) }, new_owner: owner.clone(), tag: TAG.fetch_add(1, Ordering::Relaxed) };
+            view_apply(&mut view, &op);
+            setup.push(op);
+            if rng.bool() {
+                let op = MOp::Entry { region: r.clone(), gen: g, entry: 1 + rng.below(3), owner: owner.clone() };
+                view_apply(&mut view, &op);
+                setup.push(op);
+            }
+        }
+        // push older generations forward
+        for g in 0..gens.saturating_sub(1) as u64 {
+            let target = rng.below(4) as u8; // 1 sealed (already), 2 flushed, 3 merged
+            if target >= 2 {
+                let op = MOp::Flush { region: r.clone(), gen: g, owner: owner.clone() };
+                view_apply(&mut view, &op);
+                setup.push(op);
+            }
+            if target >= 3 {
+                let op = MOp::Merged { region: r.clone(), gen: g, owner: owner.clone() };
+                view_apply(&mut view, &op);
+                setup.push(op);
+            }
+        }
+        if rng.chance(1, 5) {
+            let g = gens as u64 - 1;
+            let op = MOp::Seal { region: r.clone(), gen: g, owner: owner.clone() };
+            view_apply(&mut view, &op);
+            setup.push(op);
+        }
+    }
+    if rng.chance(1, 6) {
+        view_apply(&mut view, &MOp::Trim);
+        setup.push(MOp::Trim);
+    }
+    let n_actors = rng.urange(2, 3);
+    let mut scripts = vec![];
+    for a in 1..=n_actors {
+        let mut v = view.clone();
+        let mut s = vec![];
+        let mut fresh = 0i64;
+        for k in 0..rng.urange(1, 3) {
+            if k > 0 && rng.chance(1, 3) {
+                s.push(MOp::Refresh);
+            }
+            let op = plan_op(&mut rng, &v, a, &regions, &mut fresh);
+            view_apply(&mut v, &op);
+            s.push(op);
+        }
+        scripts.push(s);
+    }
+    let perms = permutations(n_actors);
+    let strategy = match idx % 4 {
+        0 => StratSpec::ActorOrder(perms[rng.usize_below(perms.len())].clone()),
+        1 => StratSpec::Uniform(rng.next_u64()),
+        2 => StratSpec::Pct(rng.next_u64(), rng.urange(1, 3)),
+        _ => if rng.bool() { StratSpec::RoundRobin } else { StratSpec::Uniform(rng.next_u64()) },
+    };
+    Case { setup, scripts, strategy }
+}
+
+/// selftest corruption of the observed snapshots
+#[derive(Clone, Copy, PartialEq)]
+enum Corrupt {
+    None,
+    Backwards,
+    Duplicate,
+    Reappear,
+}
+
+async fn one_case(report: &Report, seed: u64, idx: u64, corrupt: Corrupt) -> Option<bool> {
+    let case = gen_case(seed, idx);
+    let world = World::memory();
+    let a0 = Actor::new(world.new_actor(0));
+    let uri = format!("memory://w{}", URI.fetch_add(1, Ordering::Relaxed));
+    let rows: Vec<Row> = (0..4).map(|i| gen_row(i, 0)).collect();
+    let params = WriteParams { auto_cleanup: None, ..a0.write_params(WriteMode::Create) };
+    let mut ds0 = match a0.write(&uri, vec![rows_to_batch(&rows, &BASE_COLS)], params).await {
+        Ok(d) => d,
+        Err(e) => {
+            report.harness_error(&format!("setup create: {e}"));
+            return None;
+        }
+    };
+    for op in &case.setup {
+        if let Err(e) = exec(&mut ds0, &a0, op).await {
+            report.count("setup_failures", 1);
+            if std::env::var("E_CONC_DEBUG").is_ok() {
+                eprintln!("case {idx}: setup {} failed: {e}", op.describe());
+            }
+            if report.counter("setup_failures") > 30 {
+                report.harness_error(&format!("setup op failed repeatedly: {e}"));
+            }
+            return None;
+        }
+    }
+    let base = ds0.manifest().version;
+    // concurrent phase
+    let n = case.scripts.len();
+    let mut handles = vec![];
+    for a in 1..=n {
+        let actor = Actor::new(world.new_actor(a));
+        // some handles are stale
+        let rv = if (fnv(&[seed.to_le_bytes(), idx.to_le_bytes(), [a as u8; 8]].concat()) % 4) == 0 && base > 2 { base - 1 } else { base };
+        match actor.open_version(&uri, rv).await {
+            Ok(d) => handles.push((actor, d)),
+            Err(e) => {
+                report.harness_error(&format!("open actor: {e}"));
+                return None;
+            }
+        }
+    }
+    let log_start = world.log_len();
+    let sched = Sched::new();
+    world.set_sched(Some(sched.clone()));
+    for a in 1..=n {
+        sched.begin(a);
+    }
+    let mut joins = vec![];
+    for (i, (actor, mut ds)) in handles.into_iter().enumerate() {
+        let script = case.scripts[i].clone();
+        let s = sched.clone();
+        joins.push(tokio::spawn(async move {
+            let _g = EndGuard { sched: s, actor: i + 1 };
+            let mut recs = vec![];
+            for op in script {
+                let rv = ds.manifest().version;
+                let r = exec(&mut ds, &actor, &op).await;
+                let result = match r {
+                    Ok(()) => Ok(ds.manifest().version),
+                    Err(e) => Err((err_class(&e).to_string(), e.to_string())),
+                };
+                recs.push(OpRec { actor: i + 1, op, read_version: rv, result });
+            }
+            recs
+        }));
+    }
+    let out = sched.run(case.strategy.build(n), WATCHDOG).await;
+    let mut ops: Vec<OpRec> = vec![];
+    let mut panicked = false;
+    for j in joins {
+        match j.await {
+            Ok(r) => ops.extend(r),
+            Err(_) => panicked = true,
+        }
+    }
+    world.set_sched(None);
+    if out.watchdog_fired {
+        report.inconclusive(&format!("watchdog fired in case {idx}"));
+        report.count("watchdog_fired", 1);
+        report.case(None);
+        return None;
+    }
+    if panicked {
+        report.count("actor_tasks_panicked", 1);
+    }
+    let events = world.events_since(log_start);
+    // observe every version
+    let reader = Actor::new(world.new_actor(0));
+    let latest = match reader.open(&uri).await {
+        Ok(d) => d.manifest().version,
+        Err(e) => {
+            report.violation("table-unreadable-after-memwal-race", &format!("{e}"), json!({"seed": seed, "case_index": idx}));
+            return None;
+        }
+    };
+    let mut snaps: BTreeMap<u64, Snap> = BTreeMap::new();
+    let mut txn_names: BTreeMap<u64, String> = BTreeMap::new();
+    for v in 1..=latest {
+        match observe(&reader, &uri, v).await {
+            Ok((s, t)) => {
+                snaps.insert(v, s);
+                txn_names.insert(v, t);
+            }
+            Err(e) => {
+                report.violation("memwal-details-unreadable", &e, json!({"seed": seed, "case_index": idx, "version": v}));
+                return None;
+            }
+        }
+    }
+    // "refresh" is not a transaction; an op that reports Ok must have advanced its handle
+    let mut ops_txn: Vec<OpRec> = ops.iter().filter(|o| !matches!(o.op, MOp::Refresh)).cloned().collect();
+    for o in ops_txn.iter_mut() {
+        if let Ok(v) = o.result {
+            if v == o.read_version {
+                // Ok without a new version (nothing to do); not a transaction
+                o.result = Err(("NoCommit".into(), "ok without new version".into()));
+            }
+        }
+    }
+    // selftest: damage the observation
+    if corrupt != Corrupt::None {
+        let last = latest;
+        let target = snaps.get(&last).and_then(|s| s.iter().find(|(_, l)| l[0].state > 0).map(|(k, _)| k.clone()));
+        let any = snaps.get(&last).and_then(|s| s.keys().next().cloned());
+        match corrupt {
+            Corrupt::Backwards => {
+                let Some(k) = target else { return None };
+                snaps.get_mut(&last).unwrap().get_mut(&k).unwrap()[0].state -= 1;
+                // make sure the previous version had the higher state
+                if snaps.get(&(last - 1)).and_then(|s| s.get(&k)).map(|l| l[0].state) != Some(snaps[&last][&k][0].state + 1) {
+                    return None;
+                }
+            }
+            Corrupt::Duplicate => {
+                let Some(k) = any else { return None };
+                let l = snaps.get_mut(&last).unwrap().get_mut(&k).unwrap();
+                let d = l[0].clone();
+                l.push(d);
+            }
+            Corrupt::Reappear => {
+                let Some(k) = any else { return None };
+                // remove it in the version before the last one only
+                if last < 3 || !snaps[&(last - 2)].contains_key(&k) {
+                    return None;
+                }
+                snaps.get_mut(&(last - 1)).unwrap().remove(&k);
+            }
+            Corrupt::None => {}
+        }
+        let c = check_history(&snaps, &ops_txn);
+        return Some(!c.findings.is_empty());
+    }
+    let c = check_history(&snaps, &ops_txn);
+    // evidence
+    let facts = log_facts(&events);
+    report.count("events", events.len() as u64);
+    report.count("released_calls", out.released.len() as u64);
+    report.count("nondeterministic_steps", out.nondeterministic_steps);
+    report.count(&format!("histories_strategy_{}", case.strategy.family()), 1);
+    report.count("versions_walked", c.versions);
+    report.count("generation_states_checked", c.generations_checked);
+    report.count("concurrent_committed_pairs_checked", c.concurrent_pairs);
+    report.count("manifest_slot_races_lost", facts.lost_races);
+    if facts.contested_slots > 0 {
+        report.count("histories_with_2plus_writers_at_same_manifest_slot", 1);
+    }
+    for (k, n) in &c.transitions {
+        report.count(&format!("transition_{k}"), *n);
+    }
+    let mut conflicts = 0;
+    for o in &ops_txn {
+        let tag = match &o.result {
+            Ok(_) => "ok",
+            Err((cl, _)) if is_conflict_class(cl) => {
+                conflicts += 1;
+                "conflict"
+            }
+            Err((cl, _)) if cl == "InvalidInput" || cl == "NotSupported" => {
+                report.rejected();
+                "rejected"
+            }
+            Err((cl, _)) if cl == "NoCommit" => "noop",
+            Err((cl, _)) => {
+                report.count(&format!("diagnostic_error_class_{cl}_{}", o.op.kind()), 1);
+                "error"
+            }
+        };
+        report.count(&format!("op_{}_{}", o.op.kind(), tag), 1);
+    }
+    report.count("ops_failed_with_conflict", conflicts);
+    let witness = |f: &Finding| {
+        json!({
+            "seed": seed, "case_index": idx,
+            "setup": case.setup.iter().map(|o| o.describe()).collect::<Vec<_>>(),
+            "base_version": base,
+            "ops": ops.iter().map(|o| o.describe()).collect::<Vec<_>>(),
+            "strategy": case.strategy.name(),
+            "versions": snaps.iter().map(|(v, s)| json!({"version": v, "txn": txn_names.get(v), "memwal": s.iter().map(|((r, g), l)| format!("{r}/{g}:{}:{}", l.iter().map(|x| STATE_NAMES[x.state as usize]).collect::<Vec<_>>().join("|"), l[l.len()-1].owner)).collect::<Vec<_>>()})).collect::<Vec<_>>(),
+            "interleaving": out.brief(150),
+            "finding": {"signature": f.signature, "what": f.what, "detail": f.detail},
+        })
+    };
+    for f in &c.findings {
+        report.violation(&f.signature, &f.what, witness(f));
+    }
+    let committed = ops_txn.iter().filter(|o| o.result.is_ok()).count();
+    let nontrivial = c.concurrent_pairs > 0 || conflicts > 0;
+    let mut sig = format!("{}|", out.interleaving_hash());
+    for o in &ops_txn {
+        sig.push_str(&format!("{}@{}->{:?};", o.op.describe(), o.read_version, o.result.as_ref().map_err(|e| e.0.clone())));
+    }
+    report.case(if nontrivial { Some(fnv(sig.as_bytes())) } else { None });
+    INTERLEAVINGS.lock().unwrap().insert(out.interleaving_hash());
+    report.count("txns_committed_in_concurrent_phase", committed as u64);
+    if nontrivial && report.want_sample() && idx % 13 < 2 {
+        report.sample(json!({
+            "case": idx, "strategy": case.strategy.name(), "base_version": base,
+            "setup": case.setup.iter().map(|o| o.describe()).collect::<Vec<_>>(),
+            "ops": ops.iter().map(|o| o.describe()).collect::<Vec<_>>(),
+            "final_memwal": snaps.get(&latest).map(|s| s.iter().map(|((r, g), l)| format!("{r}/{g}:{}:{}", STATE_NAMES[l[0].state as usize], l[0].owner)).collect::<Vec<_>>()),
+        }));
+    }
+    None
+}
+
+static INTERLEAVINGS: std::sync::Mutex<BTreeSet<u64>> = std::sync::Mutex::new(BTreeSet::new());
+
+pub fn run(args: &Args) -> i32 {
+    let seed = args.seed;
+    if args.extra.contains_key("selftest") {
+        let rt = tokio::runtime::Builder::new_current_thread().enable_all().build().unwrap();
+        let report = Report::new(args, "exploration", "selftest", (60, 60));
+        let mut res = vec![];
+        for (name, c) in [("state-backwards", Corrupt::Backwards), ("duplicate-generation", Corrupt::Duplicate), ("reappearing-generation", Corrupt::Reappear)] {
+            let (mut fired, mut tried) = (0, 0);
+            for idx in 0..40u64 {
+                if let Some(f) = rt.block_on(one_case(&report, seed, idx, c)) {
+                    tried += 1;
+                    if f {
+                        fired += 1;
+                    }
+                }
+                if tried >= 8 {
+                    break;
+                }
+            }
+            res.push((name, fired, tried));
+        }
+        println!("SELFTEST C39 {}", res.iter().map(|(n, f, t)| format!("{n} {f}/{t}")).collect::<Vec<_>>().join(" "));
+        return if res.iter().all(|(_, f, t)| *t > 0 && f == t) { 0 } else { 2 };
+    }
+    let report = Report::new(
+        args,
+        "exploration",
+        "setup ladder of MemWAL generations on 1-2 regions, then 2-3 actors with scripts of 1-3 MemWAL operations (advance/append entry/seal/flush/mark merged/owner change/trim/merge_insert+mark merged/table append) under {every actor order, uniform, PCT, round robin}; non-trivial iff two transactions of different actors committed concurrently or an op failed with a conflict; distinct = hash(ops, read versions, results, released storage-call sequence)",
+        (50, 900),
+    )
+    .with_min_nontrivial(50);
+    let max_cases = args.tier.pick(4_000, 300_000);
+    if let Some(c) = args.extra.get("case").and_then(|c| c.parse::<u64>().ok()) {
+        let rt = tokio::runtime::Builder::new_current_thread().enable_all().build().unwrap();
+        rt.block_on(one_case(&report, seed, c, Corrupt::None));
+        return report.finish();
+    }
+    if let Some(path) = &args.replay {
+        let txt = std::fs::read_to_string(path).unwrap_or_default();
+        let v: Value = serde_json::from_str(&txt).unwrap_or_default();
+        let seed = v["witness"]["seed"].as_u64().unwrap_or(args.seed);
+        let idx = v["witness"]["case_index"].as_u64().unwrap_or(0);
+        let rt = tokio::runtime::Builder::new_current_thread().enable_all().build().unwrap();
+        for _ in 0..5 {
+            rt.block_on(one_case(&report, seed, idx, Corrupt::None));
+        }
+        return report.finish();
+    }
+    let r = &report;
+    run_parallel(r, 16, max_cases, |i| async move {
+        one_case(r, seed, i, Corrupt::None).await;
+    });
+    report.set("distinct_interleavings", json!(INTERLEAVINGS.lock().unwrap().len()));
+    report.finish()
 }
